@@ -32,6 +32,8 @@ type Step struct {
 	Arg  int   `json:"arg"`            // meter key / instrument id / registration id / tracer id
 	Kind int   `json:"kind,omitempty"` // instrument kind for opInst
 	Obs  []int `json:"obs,omitempty"`  // observable instruments for opRegister
+	Same int   `json:"same,omitempty"` // opInst: request again the identity first requested at this step (0: a new one)
+	CB   bool  `json:"cb,omitempty"`   // opInst: pass a creation-time callback (observable kinds)
 }
 
 type Storm struct {
@@ -123,7 +125,11 @@ func runSeq(w *world, steps []Step, res *result) {
 		case opMeter:
 			w.opMeter(s.Arg)
 		case opInst:
-			w.opInst(j, s.Arg, s.Kind)
+			var same *inst
+			if s.Same > 0 {
+				same = w.insts[s.Same]
+			}
+			w.opInst(j, s.Arg, s.Kind, same, s.CB)
 		case opRecord:
 			w.opRecord(j, w.insts[s.Arg])
 		case opRegister:
@@ -185,9 +191,24 @@ func runStorm(w *world, c *Storm, res *result) {
 	for k := 0; k < c.Meters; k++ {
 		w.opMeter(k)
 		p.meters = append(p.meters, k)
-		addInst(w.opInst(id(), k, 8+root.Intn(6))) // at least one observable per meter
+		var mine []*inst
+		mk := func(kind int, same *inst) {
+			x := w.opInst(id(), k, kind, same, root.Chance(1, 2))
+			addInst(x)
+			if x != nil {
+				mine = append(mine, x)
+			}
+		}
+		mk(8+root.Intn(6), nil) // at least one observable per meter
 		for i := 0; i < c.PreInsts; i++ {
-			addInst(w.opInst(id(), k, root.Intn(nKinds)))
+			mk(root.Intn(nKinds), nil)
+		}
+		// the same identity requested again (1-2 times) before installation: every handle must work
+		for i := 0; i < c.PreInsts/2+1; i++ {
+			o := mine[root.Intn(len(mine))]
+			for n := root.Range(1, 2); n > 0; n-- {
+				mk(o.kind, o)
+			}
 		}
 		for i := 0; i < c.PreRegs; i++ {
 			obs := p.obs[k]
@@ -258,6 +279,20 @@ func runStorm(w *world, c *Storm, res *result) {
 			}
 		})
 	}
+	if c.Tracers > 0 {
+		// Inject / Extract / Fields through the placeholder propagator while SetTextMapPropagator runs
+		// (a pure data race if the delegate is read unsynchronised: visible to the -race children only)
+		for g := 0; g < 2; g++ {
+			spawn(func(r *vgen.Rand) {
+				for i := 0; i < 4*c.Iter; i++ {
+					if i%4 == 0 {
+						jitter(r)
+					}
+					w.propUse()
+				}
+			})
+		}
+	}
 	for g := 0; g < c.Creators; g++ {
 		spawn(func(r *vgen.Rand) {
 			for i := 0; i < c.Iter; i++ {
@@ -272,7 +307,22 @@ func runStorm(w *world, c *Storm, res *result) {
 					p.meters = append(p.meters, k)
 					p.mu.Unlock()
 				}
-				addInst(w.opInst(id(), k, r.Intn(nKinds)))
+				var same *inst
+				if r.Chance(1, 5) { // request an existing identity of this meter again
+					p.mu.Lock()
+					var cand []*inst
+					for _, x := range p.sync {
+						if x.meter == k {
+							cand = append(cand, x)
+						}
+					}
+					cand = append(cand, p.obs[k]...)
+					if len(cand) > 0 {
+						same = cand[r.Intn(len(cand))]
+					}
+					p.mu.Unlock()
+				}
+				addInst(w.opInst(id(), k, r.Intn(nKinds), same, r.Chance(1, 3)))
 			}
 		})
 	}
